@@ -85,27 +85,27 @@ impl PrettyPrint {
         let spc = " ".repeat(n_spc);
 
         // Left align the text
-        let mut first_non_ws = 0;
-        for (i, c) in text.chars().enumerate() {
-            if !c.is_whitespace() {
-                first_non_ws = i;
-                break;
-            }
-        }
+        // (everything is counted in characters, like the columns of a range)
+        let chars: Vec<char> = text.chars().collect();
+        let first_non_ws = chars
+            .iter()
+            .position(|c| !c.is_whitespace())
+            .unwrap_or(0);
 
         // HACK: Use the text line so we have the same tab spacing
-        let mut base: String = text
+        let mut base: Vec<char> = chars
             .get(first_non_ws..)
             .unwrap_or_default()
-            .chars()
-            .map(|c| if c.is_whitespace() { c } else { ' ' })
+            .iter()
+            .map(|c| if c.is_whitespace() { *c } else { ' ' })
             .collect();
 
         // Arrows pointing the the relevant position
         let end = end + 1;
-        let arrows = "^".repeat(end.saturating_sub(start));
-        let offset = start.saturating_sub(first_non_ws);
-        base.replace_range(offset.., &arrows);
+        let offset = start.saturating_sub(first_non_ws).min(base.len());
+        base.truncate(offset);
+        base.extend(std::iter::repeat('^').take(end.saturating_sub(start)));
+        let base: String = base.into_iter().collect();
 
         let aligned = text.trim();
         format!("{spc} |\n {line} | {aligned}\n{spc} | {base}\n")
